@@ -13,6 +13,7 @@ import (
 	"math/rand"
 	"net/http"
 	"net/http/httptest"
+	"sync"
 	"testing"
 	"time"
 
@@ -217,8 +218,7 @@ func runAnnounce(c Case) pbt.Verdict {
 	if err != nil {
 		return pbt.Fail("harness: policy %q rejected: %v", c.Policy, err)
 	}
-	clk := clock.NewMock()
-	clk.Set(time.Unix(1600000000, 0))
+	clk := newCaseClock(time.Unix(1600000000, 0))
 	ps := peerstore.NewLocalStore(peerstore.LocalConfig{TTL: storeTTL}, clk)
 	defer ps.Close()
 	fo := &fakeOrigins{byDigest: map[string]BlobCfg{}}
@@ -451,6 +451,29 @@ func runAnnounce(c Case) pbt.Verdict {
 		v.Evals = 1
 	}
 	return v
+}
+
+// caseClock is the tracker's clock of one case. The peer store only reads Now();
+// clock.Mock would do but sleeps a millisecond of wall time on every Add/Set,
+// which adds up over the clock movements of thousands of histories.
+type caseClock struct {
+	clock.Clock // timers/tickers: unused by the peer store (it uses wall-clock tickers)
+	mu          sync.Mutex
+	now         time.Time
+}
+
+func newCaseClock(t time.Time) *caseClock { return &caseClock{Clock: clock.NewMock(), now: t} }
+
+func (c *caseClock) Now() time.Time {
+	c.mu.Lock()
+	defer c.mu.Unlock()
+	return c.now
+}
+
+func (c *caseClock) Add(d time.Duration) {
+	c.mu.Lock()
+	c.now = c.now.Add(d)
+	c.mu.Unlock()
 }
 
 func route(s Step) string {
